@@ -22,7 +22,7 @@ META["text"] = (
     "whatever the evaluations do to mjData (keeping array sizes): no state-API error and every component of the restore signature ends with its initial contents (proved from C26_set_get); C25_restore_spec_resolves / C25_fd_restores_mjdata: on the state table regenerated from the working tree, for every model and both restore signatures of mjd_stepFD (mjSTATE_FULLPHYSICS|mjSTATE_CTRL with and without mjSTATE_WARMSTART; the numeric values are compared with the header on every run) the fields time, qpos, qvel, act, ctrl, plugin_state (and qacc_warmstart) end with their initial contents; "
     "(C25_fd_restores_inverse_partial) the save-entry / nudge / inverse / restore-entry skeleton of mjd_inverseFD leaves qpos, qvel, qacc unchanged PROVIDED the inverse-dynamics call does not write those fields (premise). "
     "NOT proved (oracle only, on implementation output): the numerical agreement itself. qDeriv of mjd_smooth_vel (dense-ified) is compared with own centred finite differences of qfrc_actuator + qfrc_passive - qfrc_bias w.r.t. qvel (1e-5 scaled) on mjgen models with damping, springs, tendons, "
-    "every mjgen actuator kind plus damper, cylinder, intvelocity, muscle, DC-motor and PID actuators, inertia-box and ellipsoid fluid forces, all four integrator settings (under implicitfast, which symmetrizes the fluid blocks by design, the symmetric parts are compared); mjd_transitionFD forward vs centred to differencing accuracy on smooth models (a scaled gap above 5e-5 is re-examined with forward differences at eps/4 and must shrink by more than 2x, truncation error shrinking 4x, unless below the roundoff floor 1e-7; the same rule for forward D vs own centred differences and for the forward-only mjd_inverseFD with cheap threshold 1e-4), mjd_transitionFD centred vs own centred differences of mj_step (1e-5 scaled), "
+    "every mjgen actuator kind plus damper, cylinder, intvelocity, muscle, DC-motor and PID actuators, inertia-box and ellipsoid fluid forces (ellipsoid-fluid capsules, cylinders, spheres, ellipsoids and boxes, off-centre, on hinge+slide / ball / free parents, in media with density only, viscosity only and both), all four integrator settings (under implicitfast, which symmetrizes the fluid blocks by design, the symmetric parts are compared); mjd_transitionFD forward vs centred to differencing accuracy on smooth models (a scaled gap above 5e-5 is re-examined with forward differences at eps/4 and must shrink by more than 2x, truncation error shrinking 4x, unless below the roundoff floor 1e-7; the same rule for forward D vs own centred differences and for the forward-only mjd_inverseFD with cheap threshold 1e-4), mjd_transitionFD centred vs own centred differences of mj_step (1e-5 scaled), "
     "the sensor Jacobians C (centred) and D (forward and centred) vs own centred differences of mj_step + sensordata (actuatorfrc / jointactuatorfrc sensors on every actuator; 1e-5 scaled), the D entry of a one-actuator model with the control inside / exactly at / within eps of / outside ctrlrange and ranges narrower than eps against the documented one-sided behaviour, the static clampedDiff on random vectors for the four pointer patterns; "
     "mjd_inverseFD DfDv/DfDa vs own centred differences of mj_inverse (1e-4 scaled); input state before/after mjd_transitionFD and mjd_inverseFD by mj_getState(mjSTATE_INTEGRATION) memcmp plus mjcmp.h field comparison (no state field may differ; qacc for inverseFD). "
     "Not covered by any theorem: mjd_rne_vel, fluid and muscle derivatives, DC-motor / SO3 / PID terms, flex, polynomial tendon damping. "
@@ -167,6 +167,9 @@ def run(ctx):
         tcases.append((rng.randrange(1, 10 ** 6), ALL if k % 2 else (rng.getrandbits(19) | 0x40), 1 + k % 3 if quick else rng.randrange(1, 5), 3, smooth | xf, integ))
     # force-limited actuators with a velocity term, saturated (xflags 64): the forcerange skip of mjd_actuator_vel
     scases += [(21, ALL, 2, 3, 64, 0), (22, ALL, 3, 3, 64 + 2, 2), (23, 0x10000 | 0x4 | 0x40, 2, 3, 64, 1)]
+    # ellipsoid-fluid geoms of every shape on hinge+slide / ball / free parents, density-only / viscosity-only / both (xflags 128)
+    scases += [(31, 0x10000 | 0x4, 1, 3, 128, 2), (33, 0x10000 | 0x4, 1, 3, 128, 0), (35, ALL, 2, 3, 128, 2)]
+    scases += [(rng.randrange(1, 10 ** 6), rng.choice([0x10004, ALL]), 1 + k % 2, 2 if quick else 3, 128 | (k % 2), [0, 2, 1][k % 3]) for k in range(4 if quick else 60)]
     # clampedDiff kernel cases: (x_plus given, x_minus given, h, x, xp, xm)
     cdcases = []
     for fp in (0, 1):
